@@ -317,6 +317,7 @@ func (vc *VC) lemmaInstance(lem *Contract, env *SEnv, args []*SExpr) (t *Term, e
 func (eng *Engine) buildLemmaVC(lem *Contract) (vc *VC) {
 	vc = newVC(eng, nil, lem)
 	vc.lemmaMode = true
+	vc.realMul = lem.Opts["nia"] == "on"
 	defer func() {
 		if r := recover(); r != nil {
 			if se, ok := r.(specErr); ok {
